@@ -119,6 +119,75 @@ def shard_product(shard):
     return part
 
 
+def shard_coexist(shard):
+    """flavour objects constructed in every order must still decode published bytes of their own instructions"""
+    from netqasm.lang.instr import flavour as fl
+    from netqasm.lang.parsing.binary import deserialize
+    part = new_part()
+    ctors = {"vanilla": fl.VanillaFlavour, "nv": fl.NVFlavour, "reids": fl.REIDSFlavour}
+    for order in itertools.permutations(ctors):
+        made = {name: ctors[name]() for name in order}
+        deserialize(codec.ref_header((0, 0), 0))          # the default-flavour path constructs yet another vanilla flavour
+        for name, inst in made.items():
+            for mn, (opcode, kinds) in wiretable.FLAVOURS[name].items():
+                lk = wiretable.leaf_kinds(kinds)
+                lv = codec.background_high(lk)
+                part["evals"] += 1
+                part["distinct"] += 1
+                raw = codec.ref_header((0, 0), 1) + codec.ref_encode_instr(opcode, lk, lv)
+                case = {"flavour": name, "mnemonic": mn, "construction_order": list(order)}
+                try:
+                    dec = deserialize(raw, inst).instructions[0]
+                except Exception as exc:
+                    add_violation(part, f"coexist-decode-raises/{name}", f"{type(exc).__name__}: {exc}", case)
+                    continue
+                cls = inst.name_map.get(mn)
+                if dec.mnemonic != mn or type(dec) is not cls or bytes(dec.serialize()) != raw[4:]:
+                    add_violation(part, f"coexist-decode/{name}/{mn}", f"with flavours constructed in order {order}, published bytes of {name} "
+                                  f"{mn} decode as {type(dec).__module__.split('.')[-1]}.{type(dec).__name__}", case)
+    count(part, "coexist-orders", 6)
+    return part
+
+
+def shard_mutate(shard):
+    """An instruction whose operands are changed after a first encoding must encode its CURRENT operands
+    (ArrayEntry / ArraySlice and the instruction objects themselves are mutable and are rewritten in place by the
+    assembler and the transpiler)."""
+    import dataclasses
+    from netqasm.lang.operand import ArrayEntry, ArraySlice
+    _, flav = shard
+    part = new_part()
+    f = codec.flavour(flav)
+    for mn, (opcode, kinds) in wiretable.FLAVOURS[flav].items():
+        cls = f.name_map.get(mn)
+        if cls is None:
+            continue
+        lk = wiretable.leaf_kinds(kinds)
+        a, b = codec.background_low(lk), codec.background_high(lk)
+        instr = codec.make_instr(cls, kinds, a)
+        first = bytes(instr.serialize())
+        fresh = codec.make_instr(cls, kinds, b)
+        names = [fd.name for fd in dataclasses.fields(cls)[3:]]
+        for nm in names:
+            cur, new = getattr(instr, nm), getattr(fresh, nm)
+            if isinstance(cur, (ArrayEntry, ArraySlice)):
+                for attr in ("address", "index", "start", "stop"):
+                    if hasattr(cur, attr):
+                        setattr(cur, attr, getattr(new, attr))        # in-place, as _replace_constants does
+            else:
+                setattr(instr, nm, new)
+        part["evals"] += 1
+        part["distinct"] += 1
+        second = bytes(instr.serialize())
+        want = codec.ref_encode_instr(opcode, lk, b)
+        if second != want:
+            add_violation(part, f"stale-after-mutation/{flav}/{mn}", f"{flav} {mn}: after its operands were changed in place the instruction "
+                          "still encodes the old operands", {"flavour": flav, "mnemonic": mn, "mutate": True},
+                          {"first": first, "second": second, "expected": want})
+    count(part, f"mutate/{flav}")
+    return part
+
+
 def shard_header(shard):
     _, flav, which, lo, hi = shard
     part = new_part()
@@ -154,13 +223,15 @@ def shard_untabled(shard):
 
 
 def _dispatch(shard):
-    return {"instr": shard_instr, "header": shard_header, "untabled": shard_untabled, "product": shard_product}[shard[0]](shard)
+    return {"instr": shard_instr, "header": shard_header, "untabled": shard_untabled, "product": shard_product,
+            "coexist": shard_coexist, "mutate": shard_mutate}[shard[0]](shard)
 
 
 def run(ctx):
-    shards: List[Any] = []
+    shards: List[Any] = [("coexist",)]
     for flav in FLAVOURS:
         shards.append(("untabled", flav))
+        shards.append(("mutate", flav))
         for mn in wiretable.FLAVOURS[flav]:
             shards.append(("instr", flav, mn))
             shards.append(("product", flav, mn, 70000 if ctx.tier == "quick" else 2 ** 22 + 1))
@@ -173,9 +244,18 @@ def run(ctx):
         ctx.require(f"tabled-explored/{flav}", len(wiretable.FLAVOURS[flav]))
     ctx.require("header-cases", 3 * 65536 * 4)
     ctx.require("walking-ones", 500)
+    ctx.require("coexist-orders", 6)
+    for flav in FLAVOURS:
+        ctx.require(f"mutate/{flav}", 1)
     ctx.require("product-points", 10000)
 
 
 def replay(case, part):
+    if case.get("mutate"):
+        part["violations"].extend(shard_mutate(("mutate", case["flavour"]))["violations"])
+        return
+    if "construction_order" in case:
+        part["violations"].extend(shard_coexist(("coexist",))["violations"])
+        return
     lv = [tuple(x) if isinstance(x, list) else x for x in case["leaves"]]
     check_one(case["flavour"], case["mnemonic"], lv, case["app_id"], tuple(case["version"]), part)
